@@ -140,7 +140,8 @@ def correspond(ctx):
                 if a / b >= 2 and float(a / b).is_integer():
                     clock_obs.setdefault(('finer', int(a / b), call.sim_ti), set()).add(call.ti)
                 elif b / a >= 2 and float(b / a).is_integer():
-                    clock_obs.setdefault(('coarser', int(b / a), call.ti), set()).add(call.sim_ti)
+                    # step_die is called on the simulation's clock (People.step_die); the other methods on the module's own
+                    clock_obs.setdefault(('coarser', int(b / a), call.ti), set()).add((call.sim_ti, call.method == 'step_die'))
         except Exception as e:
             ctx.broke('correspondence', 'C13.clock', f'cannot read the timelines of {n}: {type(e).__name__}: {e}')
         vals, known, uid_arg = P.guard_matrix(call, facts)
@@ -345,12 +346,13 @@ def correspond(ctx):
             nums = [int(x) for x in o.split()[1:]] if o.startswith('ok ') else None
         except ValueError:
             nums = None
-        if nums is None or len(nums) != (2 if k[0] == 'finer' else 1):
+        if nums is None or len(nums) != (2 if k[0] == 'finer' else 3):
             ctx.broke('correspondence', 'C13.clock', f'driver rejected `{ln}`: {o}')
         elif k[0] == 'finer' and not (nums[0] <= seen[0] and seen[-1] <= nums[1]):
             ctx.broke('correspondence', 'C13.clock', f'a module {k[1]}x finer than the sim ran its steps {seen} while sim.ti={k[2]}; the two-clock model says {nums[0]}..{nums[1]}')
-        elif k[0] == 'coarser' and seen != nums:
-            ctx.broke('correspondence', 'C13.clock', f'a module {k[1]}x coarser than the sim ran its step {k[2]} while sim.ti was {seen}; the two-clock model says {nums[0]}')
+        elif k[0] == 'coarser' and (any(x != nums[0] for x, die in seen if not die) or any(not (nums[1] <= x <= nums[2]) for x, die in seen if die)):
+            ctx.broke('correspondence', 'C13.clock', f'a module {k[1]}x coarser than the sim, index {k[2]}: (sim.ti, is step_die) seen {seen}; the two-clock '
+                                                     f'model says own steps at sim.ti={nums[0]}, index read during {nums[1]}..{nums[2]}')
     # treatment rounds against the generated treatment model
     tkeys = sorted(treat_rows)
     tlines = [f'treat bpg {b} {g}' for b, g in tkeys]
